@@ -277,8 +277,12 @@ func (w *gcWorld) publishAll(pb *gcPublisher) {
 			w.r.Fail(w.o.prop+".PANIC", "Publish panicked", "Publish(%v) panicked: %v", ids, pv)
 		}
 		w.r.Logf("pub %d Publish(%v) returned err=%v", pb.id, ids, err)
-		// (message.Message's documentation: once passed to Publish a message is to be considered immutable — the
-		// harness does not touch the originals again)
+		// Publish has returned: the caller owns its originals again and reuses them (never while Publish runs).
+		// message.Message's documentation advises against that "in general", yet GoChannel copies what it is given
+		// precisely so that it cannot matter: what subscribers get, now or by a later replay, is what was published.
+		for _, m := range batch {
+			m.Metadata.Set("post-publish-edit", "x")
+		}
 	}
 }
 
@@ -528,8 +532,8 @@ func (w *gcWorld) checkDelivery() {
 			if !sameMeta(d.metaAtRecv, rec.snap.Metadata) {
 				sig := "delivered metadata differs from the published one"
 				for k := range d.metaAtRecv {
-					if strings.HasPrefix(k, "mut-by-sub") {
-						sig = "a metadata edit made on another copy (a consumer's delivery) is visible in a delivery"
+					if strings.HasPrefix(k, "mut-by-sub") || k == "post-publish-edit" {
+						sig = "a metadata edit made on another copy (consumer's delivery or publisher's original after Publish) is visible in a delivery"
 					}
 				}
 				r.Fail("C04.R4", sig, "sub %d %s: got %v, published %v", s.id, d.uuid, d.metaAtRecv, rec.snap.Metadata)
